@@ -27,6 +27,24 @@ pub assume_specification<T> [Option::<T>::or] (a: Option<T>, b: Option<T>) -> (r
     ensures r == (if a is Some { a } else { b });
 pub assume_specification<T> [Option::<Option<T>>::flatten] (o: Option<Option<T>>) -> (r: Option<T>)
     ensures r == (match o { Some(x) => x, None => None::<T> });
+// R19: slice::Iter::find / hash_map::IntoIter::find (trusted models of std): the first element (slice) / some entry
+// (map; iteration order unspecified) for which the predicate returned true, None only if it returned false for all
+pub trait VxIterFind<T> {
+    spec fn vx_items(&self) -> Seq<T>;
+    fn vx_iter_find<F: Fn(&&T) -> bool>(&self, f: F) -> (r: Option<&T>)
+        requires forall|i: int| 0 <= i < self.vx_items().len() ==> call_requires(f, (&&#[trigger] self.vx_items()[i],)),
+        ensures match r {
+            Some(x) => exists|i: int| 0 <= i < self.vx_items().len() && *x == self.vx_items()[i] && call_ensures(f, (&&self.vx_items()[i],), true)
+                && forall|j: int| 0 <= j < i ==> call_ensures(f, (&&#[trigger] self.vx_items()[j],), false),
+            None => forall|i: int| 0 <= i < self.vx_items().len() ==> call_ensures(f, (&&#[trigger] self.vx_items()[i],), false),
+        };
+}
+impl<T> VxIterFind<T> for [T] {
+    open spec fn vx_items(&self) -> Seq<T> { self@ }
+    #[verifier::external_body] fn vx_iter_find<F: Fn(&&T) -> bool>(&self, f: F) -> (r: Option<&T>) { self.iter().find(f) }
+}
+pub assume_specification<T: PartialEq> [<[T]>::contains] (s: &[T], x: &T) -> (r: bool)
+    ensures r == s@.contains(*x);
 // R4d: &[u8] -> [u8; N] where the caller knows the length (`.try_into().unwrap()`)
 pub trait VxIntoArr { spec fn vx_view(self) -> Seq<u8>; fn vx_into_arr<const N: usize>(self) -> (r: [u8; N]) requires self.vx_view().len() == N ensures r@ == self.vx_view(); }
 impl<'a> VxIntoArr for &'a [u8] {
@@ -520,10 +538,11 @@ pub mod authenticator {
         pub closed spec fn v_id_len(&self) -> u8 { self.credential_id_length.spec_len() }
         pub closed spec fn v_aaguid(&self) -> Aaguid { self.aaguid }
         pub closed spec fn v_ext(&self) -> Extensions { self.extensions }
+        pub closed spec fn v_algs(&self) -> Seq<iana::Algorithm> { self.algs@ }
     }
     //@ extract auth impl Authenticator
     //@   only store store_mut aaguid choose_algorithm check_user
-    //@   external_body choose_algorithm
+    //@   rule R19
     impl CredentialIdLength { pub closed spec fn spec_len(self) -> u8 { self.0 } }
     impl vstd::std_specs::convert::FromSpecImpl<CredentialIdLength> for usize {
         open spec fn obeys_from_spec() -> bool { true }
